@@ -627,6 +627,16 @@ func (env *SpecEnv) call(e *SExpr) (SpecVal, error) {
 			return SpecVal{}, err
 		}
 		return SpecVal{V: tv("(aref " + env.term(args[0]) + ")"), Go: gt}, nil
+	case "cast":
+		// cast(x, "*pkg.T"): the term x (a reference) viewed as a pointer of that Go type
+		if len(e.Args) != 2 || e.Args[1].Kind != SStr {
+			return SpecVal{}, fmt.Errorf("cast(x, \"*type\")")
+		}
+		gt, err := env.resolveType(e.Args[1].Name)
+		if err != nil {
+			return SpecVal{}, err
+		}
+		return SpecVal{V: tv(env.term(args[0])), Go: gt}, nil
 	case "ref":
 		_, at, err := one()
 		if err != nil {
